@@ -172,7 +172,62 @@ func vC20Msg(m *dns.Msg) string {
 
 // ---------------------------------------------------------------- generators
 
+// RFC 6052 section 2.2 — the driver's own table; the code's table (or whatever
+// replaces it) is only ever asked through validatePrefix / extractIPv4
 var vC20LegalBits = []int{32, 40, 48, 56, 64, 96}
+
+func vC20IsRFCLen(bits int) bool {
+	for _, b := range vC20LegalBits {
+		if b == bits {
+			return true
+		}
+	}
+	return false
+}
+
+// Which prefix lengths does the code admit?  Asked, not read: validatePrefix on
+// every length 0..128 of an IPv6 prefix (bits 64..71 zero) and, for the admitted
+// ones, embedIPv4 + extractIPv4; the same lengths through compileConfig
+// (the prefix survives compilation or the well-known one replaces it).
+// shapes: how many base addresses (1 in the quick tier).
+func vC20ProbeLengths(o *vC20Out, shapes []string, v4s []net.IP) {
+	for _, sh := range shapes {
+		for bits := 0; bits <= 128; bits++ {
+			_, p, err := net.ParseCIDR(fmt.Sprintf("%s/%d", sh, bits))
+			if err != nil {
+				continue
+			}
+			valid := validatePrefix(p) == nil
+			for _, v4 := range v4s {
+				var emb, ext net.IP
+				ok := false
+				goFail := ""
+				if valid {
+					emb = embedIPv4(p, v4)
+					ext, ok = extractIPv4(p, emb)
+					if vC20IsRFCLen(bits) && len(p.IP) == 16 {
+						if ref := vC20RefEmbed(p, v4); !ref.Equal(emb) {
+							goFail = fmt.Sprintf("embedIPv4(%s, %s) = %x, RFC 6052 reference %x", p, v4, []byte(emb), []byte(ref))
+						}
+					}
+				}
+				if valid != (vC20IsRFCLen(bits) && len(p.IP) == 16 && len(p.Mask) == 16 && (bits != 96 || p.IP[8] == 0)) && goFail == "" {
+					goFail = fmt.Sprintf("validatePrefix(%s) accepted=%v, RFC 6052 section 2.2 says %v", p, valid, !valid)
+				}
+				o.emit(fmt.Sprintf("len-probe-%v", valid), fmt.Sprintf("CaseEmbed %s %s %s %s %s", vC20Net(p), vC20Hx(v4), vC20Bool(valid), vC20Hx(emb), vC20OptBytes(ext, ok)),
+					map[string]any{"prefix": p.String(), "v4": v4.String(), "valid": valid, "embedded": emb.String(), "extracted": fmt.Sprint(ext, ok)}, true, goFail, "")
+			}
+			// through compileConfig
+			cfg := &config.Config{}
+			cfg.DNS64.Enabled = true
+			cfg.DNS64.Prefixes = []string{fmt.Sprintf("%s/%d", sh, bits)}
+			if d := New(cfg); d != nil {
+				o.emit("len-probe-compile", fmt.Sprintf("CaseCompile %s %s", vC20Config(cfg), vC20Compiled(d.cfg)),
+					map[string]any{"prefixes": cfg.DNS64.Prefixes, "compiled_prefixes": len(d.cfg.prefixes), "first": d.cfg.prefixes[0].net.String()}, true, "", "")
+			}
+		}
+	}
+}
 
 func vC20RandV6(r *rand.Rand) net.IP {
 	ip := make(net.IP, 16)
@@ -1403,6 +1458,7 @@ func vC20RunOnce(o *vC20Out, sc *vC20Scenario, passNontrivial bool) bool {
 //     folding party x A TTLs {0,1,60,600,3600} x {no SOA, SOA 3600/60} x {no chain, CNAME 900}.
 func vC20Exhaustive(o *vC20Out) {
 	vC20ExhaustiveCut(o)
+	vC20ExhaustiveHandModels(o)
 	shapes := []string{"2001:db8:122:344:5:6:7:8", "::", "ffff:ffff:ffff:ffff:ff:ffff:ffff:ffff", "::ffff:0:0"}
 	for _, bits := range vC20LegalBits {
 		for _, sh := range shapes {
@@ -1451,6 +1507,137 @@ func vC20Exhaustive(o *vC20Out) {
 			a.Answer = []dns.RR{&dns.A{Hdr: dns.RR_Header{Name: "h.ex.t.", Rrtype: dns.TypeA, Class: dns.ClassINET, Ttl: 300}, A: net.IPv4(192, 0, 9, 1).To4()}}
 			vC20Run(o, &vC20Scenario{cfg: cfg, req: req, hasOPT: true, wireBorn: (e1+e2)%2 == 0, client: net.ParseIP("203.0.113.9"),
 				down: down, alKind: 5, aResp: a, wf: true}, true)
+		}
+	}
+}
+
+// small scopes of the functions that are modelled by hand (outside the translator's subset):
+//   - inAddrArpa: every octet value at every position, 4-byte and 16-byte mapped form, non-IPv4 input,
+//   - excludedV4 / shouldExcludeAOnPrefix: every boundary IPv4 address as the A record of a synthesis and as
+//     the target of a PTR translation, under the well-known prefix (default list, operator list, empty list,
+//     reached explicitly and through the fallback) and under a network-specific prefix,
+//   - negativeAAAATTL: SOA TTL x MINIMUM over the TTL grid, no SOA, NS before SOA, two SOAs, x A TTL,
+//   - prefixContains / extractIPv4 on the other family: 4-byte and ::ffff: addresses against every legal length.
+func vC20ExhaustiveHandModels(o *vC20Out) {
+	// inAddrArpa
+	for pos := 0; pos < 4; pos++ {
+		for v := 0; v < 256; v++ {
+			ip := net.IP{1, 20, 113, 250}
+			ip[pos] = byte(v)
+			if v%2 == 1 {
+				ip = ip.To16()
+			}
+			name := inAddrArpa(ip)
+			o.emit("x-inaddr", fmt.Sprintf("CaseInAddr %s %s", vC20Hx(ip), vC20Bs(name)), map[string]any{"ip": ip.String(), "name": name}, true, "", "")
+		}
+	}
+	for _, ip := range []net.IP{nil, {}, net.ParseIP("2001:db8::1"), {1, 2, 3}, net.ParseIP("::"), net.ParseIP("::ffff:0:0")} {
+		name := inAddrArpa(ip)
+		o.emit("x-inaddr", fmt.Sprintf("CaseInAddr %s %s", vC20Hx(ip), vC20Bs(name)), map[string]any{"ip": ip.String(), "name": name}, true, "", "")
+	}
+
+	// excludedV4 through synthesis and PTR
+	empty := []string{}
+	type exCfg struct {
+		prefixes []string
+		excl     *[]string
+	}
+	custom := []string{"93.184.0.0/16", "1.2.3.4/32", "2001:db8::/32", "bogus", "0.0.0.0/0"}[:4]
+	cfgs := []exCfg{
+		{[]string{"64:ff9b::/96"}, nil}, {nil, nil}, {[]string{"2001:db8::/72"}, nil}, {[]string{"64:ff9b::/96"}, &empty},
+		{[]string{"64:ff9b::/96"}, &custom}, {[]string{"bogus"}, &custom}, {[]string{"2001:db8:64::/96"}, nil}, {[]string{"2001:db8:64::/48", "64:ff9b::/96"}, nil},
+	}
+	n := 0
+	for _, ec := range cfgs {
+		for _, a := range vC20BoundaryV4 {
+			v4 := net.ParseIP(a).To4()
+			mk := func() *config.Config {
+				cfg := &config.Config{}
+				cfg.DNS64.Enabled = true
+				cfg.DNS64.Prefixes = ec.prefixes
+				if ec.excl != nil {
+					cfg.DNS64.ExcludeANetworks = append([]string{}, (*ec.excl)...)
+				}
+				return cfg
+			}
+			n++
+			// synthesis
+			req := new(dns.Msg)
+			req.SetQuestion("h.ex.t.", dns.TypeAAAA)
+			req.SetEdns0(1232, true)
+			down := new(dns.Msg)
+			down.SetQuestion("h.ex.t.", dns.TypeAAAA)
+			down.Response = true
+			down.SetEdns0(1232, true)
+			ar := new(dns.Msg)
+			ar.SetQuestion("h.ex.t.", dns.TypeA)
+			ar.Response = true
+			ar.Answer = []dns.RR{&dns.A{Hdr: dns.RR_Header{Name: "h.ex.t.", Rrtype: dns.TypeA, Class: dns.ClassINET, Ttl: 300}, A: v4}}
+			if n%5 == 0 {
+				ar.Answer = append(ar.Answer, &dns.A{Hdr: dns.RR_Header{Name: "h.ex.t.", Rrtype: dns.TypeA, Class: dns.ClassINET, Ttl: 200}, A: net.IPv4(93, 184, 216, 34)})
+			}
+			vC20Run(o, &vC20Scenario{cfg: mk(), req: req, hasOPT: true, wireBorn: n%2 == 0, client: net.ParseIP("203.0.113.9"), down: down, alKind: 5, aResp: ar, wf: true}, true)
+			// PTR for the embedding under the first compiled prefix
+			d := New(mk())
+			if d == nil {
+				continue
+			}
+			preq := new(dns.Msg)
+			preq.SetQuestion(vC20ArpaName(embedIPv4(d.cfg.prefixes[len(d.cfg.prefixes)-1].net, v4)), dns.TypePTR)
+			preq.SetEdns0(1232, false)
+			pdown := new(dns.Msg)
+			pdown.SetRcode(preq, dns.RcodeNameError)
+			vC20Run(o, &vC20Scenario{cfg: mk(), req: preq, hasOPT: true, wireBorn: n%2 == 1, client: net.ParseIP("203.0.113.9"), down: pdown, alKind: 4, wf: true}, true)
+		}
+	}
+
+	// negativeAAAATTL
+	soa := func(ttl, min uint32) *dns.SOA {
+		return &dns.SOA{Hdr: dns.RR_Header{Name: "t.", Rrtype: dns.TypeSOA, Class: dns.ClassINET, Ttl: ttl},
+			Ns: "ns.t.", Mbox: "h.t.", Serial: 1, Refresh: 7200, Retry: 3600, Expire: 604800, Minttl: min}
+	}
+	nsrr := &dns.NS{Hdr: dns.RR_Header{Name: "t.", Rrtype: dns.TypeNS, Class: dns.ClassINET, Ttl: 5}, Ns: "ns.t."}
+	var authorities [][]dns.RR
+	authorities = append(authorities, nil, []dns.RR{nsrr})
+	for _, t := range vC20TTLs {
+		for _, m := range vC20TTLs {
+			authorities = append(authorities, []dns.RR{soa(t, m)})
+		}
+		authorities = append(authorities, []dns.RR{nsrr, soa(t, 77)}, []dns.RR{soa(t, 4000), soa(1, 1)}, []dns.RR{soa(9, t), nsrr})
+	}
+	for i, ns := range authorities {
+		for _, attl := range []uint32{0, 599, 700, 100000} {
+			cfg := &config.Config{}
+			cfg.DNS64.Enabled = true
+			req := new(dns.Msg)
+			req.SetQuestion("h.ex.t.", dns.TypeAAAA)
+			req.SetEdns0(1232, true)
+			down := new(dns.Msg)
+			down.SetQuestion("h.ex.t.", dns.TypeAAAA)
+			down.Response = true
+			down.SetEdns0(1232, true)
+			down.AuthenticatedData = i%3 == 0
+			down.Ns = ns
+			ar := new(dns.Msg)
+			ar.SetQuestion("h.ex.t.", dns.TypeA)
+			ar.Response = true
+			ar.Answer = []dns.RR{&dns.A{Hdr: dns.RR_Header{Name: "h.ex.t.", Rrtype: dns.TypeA, Class: dns.ClassINET, Ttl: attl}, A: net.IPv4(192, 0, 9, 1).To4()}}
+			vC20Run(o, &vC20Scenario{cfg: cfg, req: req, hasOPT: true, wireBorn: i%2 == 0, client: net.ParseIP("203.0.113.9"), down: down, alKind: 5, aResp: ar, wf: true}, true)
+		}
+	}
+
+	// the other family against every legal length (prefixContains / extractIPv4)
+	for _, bits := range vC20LegalBits {
+		for _, sh := range []string{"2001:db8:122:344::", "::", "::ffff:0:0", "64:ff9b::"} {
+			_, p, err := net.ParseCIDR(fmt.Sprintf("%s/%d", sh, bits))
+			if err != nil || validatePrefix(p) != nil {
+				continue
+			}
+			for _, a := range []net.IP{net.IPv4(192, 0, 2, 33).To4(), net.IPv4(192, 0, 2, 33), net.IPv4(0, 0, 0, 0).To4(), net.IPv4(0, 0, 0, 0), net.IPv4(255, 255, 255, 255), nil, {1, 2, 3}} {
+				ext, ok := extractIPv4(p, a)
+				o.emit(fmt.Sprintf("x-extract-family-%d-%v", bits, ok), fmt.Sprintf("CaseExtract %s %s %s", vC20Net(p), vC20Hx(a), vC20OptBytes(ext, ok)),
+					map[string]any{"prefix": p.String(), "addr": a.String(), "len": len(a), "extracted": fmt.Sprint(ext, ok)}, true, "", "")
+			}
 		}
 	}
 }
@@ -1540,6 +1727,12 @@ func TestVerifC20(t *testing.T) {
 	vC20ReplayCorpus(t, o)
 	if os.Getenv("VERIF_TIER") == "thorough" {
 		vC20Exhaustive(o)
+	}
+	if os.Getenv("VERIF_TIER") == "thorough" {
+		vC20ProbeLengths(o, []string{"2001:db8:122:344:0:6:7:8", "2001:db8:122:344:100:6:7:8", "::", "ffff:ffff:ffff:ffff:ff:ffff:ffff:ffff", "64:ff9b::", "192.0.2.0"},
+			[]net.IP{net.IPv4(192, 0, 2, 33).To4(), net.IPv4(0, 0, 255, 255).To4(), net.IPv4(255, 255, 255, 255).To4()})
+	} else {
+		vC20ProbeLengths(o, []string{"2001:db8:122:344:0:6:7:8"}, []net.IP{net.IPv4(192, 0, 2, 33).To4()})
 	}
 	vC20Direct(o, rand.New(rand.NewSource(seed*7919+20)), n)
 	vC20Serve(o, rand.New(rand.NewSource(seed*104729+20)), n)
